@@ -56,6 +56,22 @@ Strengthening, round 3 (arguments are inputs; the mode as text; ONE optimizer ov
    observation and with a freshly built optimizer, and the bounds objects handed over are compared with private copies.
  * binding B: "deliver" events happen on optimizers that may have been compiled before under other settings, with the mode
    given in any spelling and the bounds in any container (Trace_Priors.tla: mtext, cont, pre).
+
+Strengthening, round 4 (every keyword stands for itself; ONE prior object over its life; bounds by factor):
+ * Priors.tla / MC_Priors.tla: a call gives any subset of the documented keywords (18 constructor forms: bounds | lin_bounds | left
+   out; mean | lin_mean | left out x std | lin_std | left out), BuildK, LogForm for every linear-space argument, Complete /
+   OmittedIsSignature (a keyword left out has the value of the documented signature); Keywords = "coupled" must be refuted on
+   LinArgsInv (MC_Priors_coupled.cfg).  Binding A runs every clause on all forms; omitted_keyword_is_signature_value compares
+   with the explicit call (inspect.signature).
+ * spec/MC_PriorObject.tla: two long-lived prior objects; steps Set (set_bounds, any container, either order), Make (a second
+   object, direct / text), Reuse (the caller rewrites its container), Look; ObjectInv (what is sampled = what is reported = the
+   support given last, for both objects), ClausesInv; Setter = support_frozen / class_level / by_reference must be refuted.
+   Binding C: TLC-simulated walks replayed on real objects (replay_object_walk, object_checks: reported support, inverse CDF on
+   the grid with scalar and array u, monotone, back-transform, equality with a fresh object, containers against private copies;
+   a third of the walks with the object attached to a real optimizer: object_delivered).
+ * MC_PriorHistory.tla: SetBoundary also via set_factor_boundary / "X:factor = f, g" (factor_route).
+ * quick tier: the design-level runs other than the export run in background threads; MC_Priors / MC_PriorDelivery without TLC's
+   action coverage (settle_spec reads from the shape of the state graph that every action was taken).
 """
 import json
 import math
@@ -1170,7 +1186,7 @@ def run_objects(ctx, started):
     if res.violated:
         raise Machinery('MC_PriorObject (simulation) violates %s' % (res.violated,))
     walks = res.tagged('OBJ')
-    nwant = 80 if q else 400
+    nwant = 80 if q else 240
     if len(walks) < nwant // 2:
         raise Machinery('TLC produced only %d object walks' % len(walks))
     # vacuity: the setter on either object in every container, both orders of the bounds, every way of making an object, a container
@@ -1215,7 +1231,7 @@ def start_background(ctx, zf):
         'history-walks': lambda: run_tlc('MC_PriorHistory', 'SIM_PriorHistory.cfg' if q else 'SIM_PriorHistory_thorough.cfg', env=env, workers=1,
                                          simulate='num=%d' % (120 if q else 1200), depth=20, seed=ctx.seed + 17),
         'object-walks': lambda: run_tlc('MC_PriorObject', 'SIM_PriorObject.cfg' if q else 'SIM_PriorObject_thorough.cfg', env=env, workers=1,
-                                        simulate='num=%d' % (80 if q else 400), depth=20, seed=ctx.seed + 23, allow_violation=True),
+                                        simulate='num=%d' % (80 if q else 240), depth=20, seed=ctx.seed + 23, allow_violation=True),
         'history-exhaustive': lambda: run_tlc('MC_PriorHistory', 'MC_PriorHistory_%s.cfg' % ctx.tier, env=env, workers=4, coverage=not q),
         'object-exhaustive': lambda: run_tlc('MC_PriorObject', 'MC_PriorObject_%s.cfg' % ctx.tier, env=env, workers=2),
         'object-support-frozen-refuted': lambda: run_tlc('MC_PriorObject', 'MC_PriorObject_frozen.cfg', env=tiny, workers=1, allow_violation=True),
@@ -1568,11 +1584,20 @@ def run(ctx):
                               % (120 if q else 1200),
                       containers='every exported constructor call built twice from one argument object: tuple, list, float64 array, read-only '
                                  'array (bounds); float, numpy.float64 (mean, std, lin_mean)')
+    ctx.bounds.update(keywords='18 constructor forms: every subset of the keywords (bounds | lin_bounds | -; mean | lin_mean | - x std | lin_std | -), '
+                               'lin_std = 10^e, e in %s' % ('{1,2}' if q else '{1,2,3}'),
+                      prior_objects='%d TLC-simulated walks of %d steps on two long-lived prior objects (set_bounds with tuple / list / array / read-only '
+                                    'array in either order, a second object made directly or from text, the caller\'s container rewritten, a second look); '
+                                    'scalar u and the grid as one array; a third of the walks attached to an optimizer' % ((80, 7) if q else (240, 10)))
     ctx.assumptions = ['the normal quantile is an uninterpreted strictly increasing odd table in the spec; its numerical '
                        'values come from statistics.NormalDist.inv_cdf (stdlib), not from scipy',
                        'float 10**x at the boundary; log10(10**e) == e checked for every exponent used',
                        'degenerate intervals (equal bounds) and std <= 0 are outside the checked domain',
-                       'lin_std is not part of the statement and is not checked',
+                       'a keyword left out of a constructor call has the value of the documented signature (bounds [0, 1], mean 0.5, std 0.25; '
+                       'read with inspect.signature: if the signature gives another number the call is only compared with the explicit call); '
+                       'lin_std = 10^e with integer e >= 1; giving an argument in both spellings at once is outside the checked domain',
+                       'long-lived prior objects: set_bounds is the only public setter of the four classes; the bounds of the walks stay <= 250 '
+                       'so that 10**x is a float for the log kinds',
                        'tail ladder: the normal quantile at 2^-k is a second uninterpreted table (stdlib AS241, cross-checked by '
                        'inverting math.erfc); the inverse-CDF identity is evaluated with math.erfc at the boundary with a '
                        'tolerance of 1e-9 plus the conditioning of x = mean + sd z; below 2^-1022 (subnormal mass) only the table, '
